@@ -218,7 +218,10 @@ func (c *simCluster) stepReplSend(i, j uint64) map[string]interface{} {
 			}
 		}
 		if c.eager.Poll {
-			sr.poll()
+			// pipeline writer: checkLeaderUpdate returned ldrUpdate=true, so it writes even when nothing is new
+			if sr.poll() && sr.mode == modePipe {
+				sr.canWrite = true
+			}
 		}
 		assert(r.matchIndex < r.nextIndex)
 		switch sr.mode {
